@@ -4,6 +4,7 @@ it holds initially, every step preserves it, the committed history only grows by
 and the committed part is a dense `PrevAlh` chain of real records.
 -/
 import ImmuModel.Store.CommitInv
+import ImmuModel.Store.CommitWrite
 
 namespace ImmuModel.Store.Commit
 open ImmuModel ImmuModel.Tx ImmuModel.Merkle ImmuModel.Store
@@ -581,47 +582,38 @@ theorem Ext.trans {s s' s'' : St D} (a : Ext s s') (b : Ext s' s'') (hle : s.log
 theorem performPrecommit_spec {hs : Hs D} (z : D) {s : St D} (tx : TxIn D) (ts bl : Nat)
     (h : InvLog hs s) :
     InvLog hs (performPrecommit hs z s tx ts bl).1 ∧ Ext s (performPrecommit hs z s tx ts bl).1 := by
-  have hlen : (s.log.take s.logEnd).length = s.logEnd := by
-    have := h.logEnd_le; simp [List.length_take]; omega
-  -- after `txLog.SetOffset`
-  have hT : ∀ s' : St D, s'.log = s.log.take s.logEnd → s'.logEnd = s.logEnd → s'.clog = s.clog →
-      s'.committed = s.committed → s'.comAlh = s.comAlh → s'.buf = s.buf →
-      s'.preID = s.preID → s'.preAlh = s.preAlh → s'.useExt = s.useExt →
-      s'.allowed = s.allowed → InvLog hs s' ∧ Ext s s' := by
-    intro s' h0 h1 h2 h3 h4 h5 h6 h7 h8 h9
-    have hl : ∀ off, off < s.logEnd → s'.log[off]? = s.log[off]? := by
-      intro off ho; rw [h0, List.getElem?_take, if_pos ho]
-    refine ⟨h.relog hl (by rw [h0, hlen]; exact Nat.le_refl _) ?_ h1 h2 h3 h4 h5 h6 h7 h8 h9,
-      ⟨by rw [h3]; exact Nat.le_refl _, by rw [h2], hl⟩⟩
-    intro r hr; rw [h0] at hr; exact h.wf r (List.mem_of_mem_take hr)
+  -- an exit before `txLog.Append`: nothing changed
+  have hT : ∀ s' : St D, s' = s → InvLog hs s' ∧ Ext s s' := by
+    intro s' e; subst e; exact ⟨h, Ext.refl _⟩
   -- after `txLog.Append` (and changes to the tree)
   have hA : ∀ (s' sR : St D) (rec : Rec D), Frame s' sR → alh hs rec.hdr = some rec.alh →
-      s'.log = s.log.take s.logEnd ++ [rec] → s'.logEnd = s.logEnd → s'.clog = s.clog →
+      s'.log = writeRec s.cfg.embedded s.log s.logEnd rec → s'.logEnd = s.logEnd → s'.clog = s.clog →
       s'.committed = s.committed → s'.comAlh = s.comAlh → s'.buf = s.buf →
       s'.preID = s.preID → s'.preAlh = s.preAlh → s'.useExt = s.useExt →
       s'.allowed = s.allowed → (InvLog hs sR ∧ Ext s sR) ∧ sR.log[sR.logEnd]? = some rec := by
     intro s' sR rec F hw h0 h1 h2 h3 h4 h5 h6 h7 h8 h9
     have hl : ∀ off, off < s.logEnd → s'.log[off]? = s.log[off]? := by
-      intro off ho; rw [h0]; exact getElem?_take_append _ _ ho h.logEnd_le
+      intro off ho; rw [h0]; exact writeRec_get_lt _ _ _ ho h.logEnd_le
     have hi : InvLog hs s' := by
-      refine h.relog hl (by rw [h0, List.length_append, hlen]; omega) ?_ h1 h2 h3 h4 h5 h6 h7 h8 h9
-      intro r hr; rw [h0, List.mem_append] at hr
-      rcases hr with hr | hr
-      · exact h.wf r (List.mem_of_mem_take hr)
-      · simp at hr; subst hr; exact hw
+      refine h.relog hl (by rw [h0]; exact Nat.le_of_lt (writeRec_length _ _ _ h.logEnd_le)) ?_
+        h1 h2 h3 h4 h5 h6 h7 h8 h9
+      intro r hr; rw [h0] at hr
+      rcases writeRec_mem _ _ _ _ _ hr with hr | hr
+      · exact h.wf r hr
+      · subst hr; exact hw
     have he : Ext s s' := ⟨by rw [h3]; exact Nat.le_refl _, by rw [h2], hl⟩
     refine ⟨⟨F.invLog hi, he.frame F⟩, ?_⟩
-    rw [F.log, F.logEnd, h0, h1]; exact getElem?_take_append_self _ _ h.logEnd_le
+    rw [F.log, F.logEnd, h0, h1]; exact writeRec_get_self _ _ _ h.logEnd_le
   unfold performPrecommit
   simp only []
   split
   · exact ⟨h, Ext.refl s⟩
   split
-  · exact hT _ rfl rfl rfl rfl rfl rfl rfl rfl rfl rfl
+  · exact hT _ rfl
   split
-  · exact hT _ rfl rfl rfl rfl rfl rfl rfl rfl rfl rfl
+  · exact hT _ rfl
   split
-  · exact hT _ rfl rfl rfl rfl rfl rfl rfl rfl rfl rfl
+  · exact hT _ rfl
   rename_i blRoot _ _ a ha
   split
   · exact And.left (hA _ _ _ (Frame.refl _) ha rfl rfl rfl rfl rfl rfl rfl rfl rfl rfl)
